@@ -139,22 +139,22 @@ CLAIMS = {
 SHARED = {
     "C02": " Also evaluates the necessary conditions this property rests on from other rule sets: the wake/poll handshake (C01 R1.1-R1.8), Occupied-only polling (C05 R5.1), ordered index discipline and in-turn yield (C04 R4.1/R4.2), side-effect-free refusal (C15 R15.2), free-list initialisation (R2.7).",
     "C01": " Added (rounds 2-3): the index POP reports is the slot position (C03 R3.5 evaluated here, index field of full usize width); every enqueue in the crate is flag-guarded (R1.2); group turn order survives removals, put-back only of the last/only group, cursor moved off a group that was put back (R1.7). Added (round 5): Pending after a full pass is decided per arrival (through joins of inlined helpers), `0..=len-1` passes, retained-tail idiom, flag clears located in the drain itself when its helper is read through. Added (round 6): where the order of cursor events is inconclusive, 'the iteration after None moves on' is decided by walking the path over every small (number of groups, cursor) start state; helpers that branch on a constant enum argument are folded per call site.",
-    "C02": " Added (round 3): min-heap order of the parked outputs on the unsigned index (C04 R4.4) is evaluated here. Added (round 5): the slot map's insert/remove are decided over a linked free list (LIFO or FIFO), bookkeeping fields must be usize (R2.2), Ready(None) also where the only, exhausted group is kept in place, the remaining-counter rule runs on variant-sensitive paths. Added (round 6): the explicit-loop form of 'every group is empty' is recognised per path (complete traversal of the whole vector, every element crossed the true edge of its own is_empty); the collection's own is_empty() observer is followed; drops behind a join are decided per path (moved out / payload-free).",
+    "C02": " Added (round 3): min-heap order of the parked outputs on the unsigned index (C04 R4.4) is evaluated here. Added (round 5): the slot map's insert/remove are decided over a linked free list (LIFO or FIFO), bookkeeping fields must be usize (R2.2), Ready(None) also where the only, exhausted group is kept in place, the remaining-counter rule runs on variant-sensitive paths. Added (round 6): the explicit-loop form of 'every group is empty' is recognised per path (complete traversal of the whole vector, every element crossed the true edge of its own is_empty); the collection's own is_empty() observer is followed; drops behind a join are decided per path (moved out / payload-free). Added (round 7): no `&mut` borrow of the slot map's counter / free-list head may escape into a value or a callee (an unwind guard stepping the counter from its destructor) -- R2.3 bookkeeping-borrow-does-not-escape.",
     "C08": " Added (round 5): every reference obtained by Pin::get_unchecked_mut / into_inner_unchecked from a pinned place that holds a type parameter inline (adapters' upstream Option, a wrapper's child) is audited like a slot reference (R8.2): Option::take / mem::replace / moves out of it are reported.",
     "C03": " Added (round 4): the decrement is the owner's last touch of the block (R3.11). Added: lock discipline of the per-slot flag (R3.9), slot-map/waker-list capacity agreement and MARK index provenance (R3.8), plain (non-atomic) writes / &mut borrows / ptr::replace-style primitives on the shared block only in the constructor and the freeing function (R3.10), compile_fail witnesses (E3) in the quick tier. Added (round 5): reference counting per vtable entry is sensitive to the constant a shared helper is called with; a lock guard of the shared block released after the reference was given up is a touch of freed memory (R3.11); the guard is followed into a struct that wraps it (R3.9). Added (round 6): R3.5(e) -- the byte offset between header and items is evaluated in a 16-bit wrapping model for every header size 0..=96 and alignment <= 128 and must equal size_of::<Header>() rounded up to align_of::<Item>() (what Layout::extend places); helpers around the primitives that only construct them, that apply a callable they were given, or that branch on a parameter's variant are read at their call sites; MARK-ALL primitives are recognised by role.",
     "C05": " The slot-map semantics that make 'vacated' mean 'dropped in place and invisible to the accessor' (C02 R2.3) are evaluated in this check. Added (round 5): per-arrival form of 'child poll behind the dequeue' and of `set(None)` after the upstream ended; a caller that consumes (i, x) itself need not return it. Added (round 6): the accessor's answer may be the verdict of an inlined helper / an expanded combinator taking a function item (`get_slot(key).and_then(Slot::project)`): decided per return path.",
     "C04": " Added (round 4): who may number (R4.7). Added: completeness of the live-task enumeration used by the re-base (R4.3b). Added (round 5): the re-base guard is decided by its meaning in an 8-bit model of usize (holds wherever the live window may wrap; the re-based window is contiguous); position counters may live in a nested private struct; numbering through a captured closure is read through (closure specialisation). Added (round 6): reserve-then-roll-back numbering (step, ask the queue, inverse step on refusal) is accepted when every path through the undo returns Err and carries exactly [step, inverse] of a Wrapping counter; flat_map enumeration also through a helper's generic next.",
     "C06": " Added: exhaustive, vacancy-guarded release loops (R6.6), no path of a buffer struct's Drop impl avoids the release loop except on buffer emptiness or needs_drop::<element type>() == false (R6.7); shared: vacate<=>Ready (C02 R2.1/R2.3), waker allocation freed exactly once (C03 R3.1/R3.4). Added (round 5): Vec::from_raw_parts re-owning a pointer that Box::into_raw disowned in the same function; index-loop form of the whole-buffer release; output buffer inside a private wrapper struct; stored user closures are not children. Added (round 6): R6.6 every-vacant-entry-but-the-excluded-one-is-released -- an iteration of the release loop that does not reach the release has crossed 'slot occupied', an equality of the index with a loop-independent value, or needs_drop == false (an ordering test skips written entries).",
     "C07": " Added: the slot map's FromIterator builds a full map -- every element Occupied, counter = len(storage) -- so capacity() == number of inputs (R7.6); who-may-vacate (C02 R2.2) so that unwind guards or other code cannot vacate a slot without an output; direct-drain forms of poll are handled. Added (round 5): Vec::from_raw_parts(ptr, len, cap) over the taken buffer must use that buffer's own length for both (R7.2); cancellation of the remaining futures only after the buffer was given up (R2.2); bookkeeping width (R2.2). Added (round 6): the safety direction of C06 R6.6 (every release guarded by the vacancy of the same index) is evaluated here -- a destructor run on an unwritten entry is a value no input produced; type parameters named at the call (`poll_settled::<F, KeepAll>`) are bound when a generic helper is read through.",
-    "C09": " Added: the limit reaches the slot storage unchanged through every constructor on the way (R9.4, with C02 R2.7). Guard semantics are decided by a finite-grid entailment on the closed form of the fill guard (pull ==> running < capacity; no pull ==> running(+parked) >= capacity), with the exact-shape rule as fallback; the assume-guarantee links (C02 R2.1/R2.4, C15 R15.3/R15.4) are evaluated in this check. Added (round 5): guards kept in a variable (re-evaluated after each push), follower fields of the upstream Option, constants carried through aggregates are folded along each path (never arithmetic results), tail-forwarded inner polls, calls through a crate-private trait are devirtualised when the generic helper is inlined. Added (round 6): C02 R2.3 is kept as a shared link (the fill guard reads the slot map's counter; a slot that drops out of the free list while the counter goes down makes the guard admit a pull the insert refuses).",
-    "C10": " Added (round 4): termination observers defined on the adapter structs (FusedStream or inherent) must read the upstream and the whole queue incl. parked outputs (R10.6). Added: the upstream is given up (set(None)) only directly after it returned Ready(None); adapter constructors and the capacity chain (C09 R9.1/R9.4) are evaluated here because a clamped or zero capacity stalls the adapter. The assume-guarantee links (C02 R2.1/R2.4, C15 R15.3/R15.4) are evaluated in this check. Added (round 5): per-path return classification of the adapter model, tail-forwarded inner polls, follower fields. Added (round 6): the refusal direction of C09 R9.2 is evaluated here (it is the assumption under which the path model reads a refusing guard as 'saturated'); an upstream item moved out before its variant is inspected is an upstream error when the path finds it Err; returned errors are peeled along the path to the upstream poll's own error.",
-    "C11": " Added (round 3): an exhausted group is removed order-preservingly and put back only if it was the last or the only one (R1.7); every enqueue in the crate, including the owner-side marking primitive, is guarded by the flag (R1.2). Also evaluates the wake/poll handshake (C01), Occupied-only polling (C05 R5.1), slot-map all-or-none (C02 R2.3), and that the unbounded push inserts exactly once on every path. Added (round 5): R11.3 -- MergeUnbounded answers Pending only if some group answered Pending in this call or a test that every group is empty (other outcome Ready(None)) was crossed after the last poll; found defect D8 (repaired, fix: 586a86a). Added (round 6): a Pending path that left an explicit whole-vector emptiness traversal early has seen a non-empty group (R11.3).",
+    "C09": " Added: the limit reaches the slot storage unchanged through every constructor on the way (R9.4, with C02 R2.7). Guard semantics are decided by a finite-grid entailment on the closed form of the fill guard (pull ==> running < capacity; no pull ==> running(+parked) >= capacity), with the exact-shape rule as fallback; the assume-guarantee links (C02 R2.1/R2.4, C15 R15.3/R15.4) are evaluated in this check. Added (round 5): guards kept in a variable (re-evaluated after each push), follower fields of the upstream Option, constants carried through aggregates are folded along each path (never arithmetic results), tail-forwarded inner polls, calls through a crate-private trait are devirtualised when the generic helper is inlined. Added (round 6): C02 R2.3 is kept as a shared link (the fill guard reads the slot map's counter; a slot that drops out of the free list while the counter goes down makes the guard admit a pull the insert refuses). Added (round 7): R9.2 / R9.3 run over every function that pulls from the upstream and answers a Poll (a `poll_progress` added next to poll_next), with the queue's own drive methods (Poll<()>, Ready only under the collection poll's Ready(None)) as inner-poll events.",
+    "C10": " Added (round 4): termination observers defined on the adapter structs (FusedStream or inherent) must read the upstream and the whole queue incl. parked outputs (R10.6). Added: the upstream is given up (set(None)) only directly after it returned Ready(None); adapter constructors and the capacity chain (C09 R9.1/R9.4) are evaluated here because a clamped or zero capacity stalls the adapter. The assume-guarantee links (C02 R2.1/R2.4, C15 R15.3/R15.4) are evaluated in this check. Added (round 5): per-path return classification of the adapter model, tail-forwarded inner polls, follower fields. Added (round 6): the refusal direction of C09 R9.2 is evaluated here (it is the assumption under which the path model reads a refusing guard as 'saturated'); an upstream item moved out before its variant is inspected is an upstream error when the path finds it Err; returned errors are peeled along the path to the upstream poll's own error. Added (round 7): C04 R4.1 / R4.7 are evaluated here (an accepted future whose index never comes into turn is an upstream item that is pulled but never delivered); a probe of the upstream kept in a flag speaks about the moment it was evaluated (a stale `upstream_done` is reported by R10.4).",
+    "C11": " Added (round 3): an exhausted group is removed order-preservingly and put back only if it was the last or the only one (R1.7); every enqueue in the crate, including the owner-side marking primitive, is guarded by the flag (R1.2). Also evaluates the wake/poll handshake (C01), Occupied-only polling (C05 R5.1), slot-map all-or-none (C02 R2.3), and that the unbounded push inserts exactly once on every path. Added (round 5): R11.3 -- MergeUnbounded answers Pending only if some group answered Pending in this call or a test that every group is empty (other outcome Ready(None)) was crossed after the last poll; found defect D8 (repaired, fix: 586a86a). Added (round 6): a Pending path that left an explicit whole-vector emptiness traversal early has seen a non-empty group (R11.3). Added (round 7): C06 R6.5 (no live drop of a value owning a source outside Drop) is evaluated here for the functions of the merge types.",
     "C12": " Added: every Waker::wake* call in the crate is on the caller's task waker (the crate never invokes a child slot waker itself). Added (round 5): thin forwarders of the marking primitive are read through (their caller carries the role).",
-    "C13": " Added (round 3): budget sanity ceiling (<= 65536 child polls per call); the group-turn rules of C01 R1.7 are evaluated here. Service order within a group: children are polled only when their own entry is dequeued (C05 R5.1) and a merged stream that yielded is re-queued at the tail (C01 R1.6) -- both evaluated here. The budget cell may count up or down, directly or through a &mut borrow of it (helper inlined); exhaustion must lead, on every feasible path, out of the loop through a self-wake to a Pending return. The budget must admit at least one child poll; every loop cycle that polls a child passes the increment and the comparison. Added (round 5): R13.3 -- a dequeued slot is polled or found vacant before the next dequeue / return (never re-queued unpolled); budgets written as `let Some(rest) = budget.checked_sub(1) else {..}`; the two D4 findings are repaired (fix: 8d6672b) and no longer listed. Added (round 6): event paths that contradict a constant / variant they carry themselves are dropped.",
-    "C14": " Added (round 4): who may vacate a slot (C02 R2.2) is evaluated here. Added: no spurious queue entries (R14.4): every enqueue in the crate only on the flag's false->true transition, and marking loops only over occupied slots (a full map built by FromIterator, C07 R7.6); the budget licence of a self-wake is decided with C13's budget-cell analysis. Added (round 5): the licence 'a dequeued child was polled' requires a child poll between that dequeue and the self-wake (a stale entry licenses nothing); a transient enum carrying the borrowed child waker out of a helper is not a stored waker. Added (round 6): every edge on which the budget cell tests as exhausted licenses the self-wake.",
-    "C15": " Added (round 4): every function named len / is_empty / is_terminated on the collection types (inherent or from any trait) is an observer; who may vacate (C02 R2.2). Added (round 3): size_hint is the fourth observer (C17 R17.3 evaluated here). Added: try-push forwarders have no side effects of their own (R15.2), every group of an unbounded collection has capacity >= 1 (R15.5). Added (round 5): len() of an ordered collection may be the wrapping distance of its position counters (then the index discipline R4.1-R4.3 is evaluated here too); group capacities evaluated per path. Added (round 6): refusal is side-effect free also when the forwarder reserves and rolls back: every refusing return path carries no effect or exactly a Wrapping step followed by its inverse (R15.2).",
-    "C16": " Added (round 4): the guard rules cover every function that polls an upstream (not only poll_next); out-of-turn outputs are held only in the counted heap (C02 R2.5). The guard is decided by finite-grid entailment (a pull is admitted only when running + parked < capacity) with the exact-shape rule as fallback; C15 R15.3 (len = running + parked) is evaluated in this check. Added (round 5): a guard kept in a variable must be the same formula at every definition and be re-evaluated after every push; counter-window form of len().",
-    "C18": " Added (round 4): every function of the unbounded types that appends a freshly built group obeys the growth discipline (not only push); a group leaves the vector only where its own poll reported Ready(None) (shared with C11). Added (round 5): the last group may be retained by not removing it (edge conditions over (number of groups, cursor) decided on a grid); fresh-group capacities evaluated per path. Added (round 6): an allocating site may sit behind a join (`if let Some(next) = place_or_grow(..)`): every constant-feasible arrival has crossed 'no group yet' or 'last group refused'.",
+    "C13": " Added (round 3): budget sanity ceiling (<= 65536 child polls per call); the group-turn rules of C01 R1.7 are evaluated here. Service order within a group: children are polled only when their own entry is dequeued (C05 R5.1) and a merged stream that yielded is re-queued at the tail (C01 R1.6) -- both evaluated here. The budget cell may count up or down, directly or through a &mut borrow of it (helper inlined); exhaustion must lead, on every feasible path, out of the loop through a self-wake to a Pending return. The budget must admit at least one child poll; every loop cycle that polls a child passes the increment and the comparison. Added (round 5): R13.3 -- a dequeued slot is polled or found vacant before the next dequeue / return (never re-queued unpolled); budgets written as `let Some(rest) = budget.checked_sub(1) else {..}`; the two D4 findings are repaired (fix: 8d6672b) and no longer listed. Added (round 6): event paths that contradict a constant / variant they carry themselves are dropped. Added (round 7): R13.4 who may move the round-robin cursor -- outside poll_next and the constructors only a store that leaves at most one group behind or moves the old cursor down (following groups removed in front of it).",
+    "C14": " Added (round 4): who may vacate a slot (C02 R2.2) is evaluated here. Added: no spurious queue entries (R14.4): every enqueue in the crate only on the flag's false->true transition, and marking loops only over occupied slots (a full map built by FromIterator, C07 R7.6); the budget licence of a self-wake is decided with C13's budget-cell analysis. Added (round 5): the licence 'a dequeued child was polled' requires a child poll between that dequeue and the self-wake (a stale entry licenses nothing); a transient enum carrying the borrowed child waker out of a helper is not a stored waker. Added (round 6): every edge on which the budget cell tests as exhausted licenses the self-wake. Added (round 7): R14.5 -- a function that vacates slots wholesale through a slot-map method other than REMOVE must empty the ready queue itself (or consume the collection); otherwise every stale entry burns budget and self-wakes.",
+    "C15": " Added (round 4): every function named len / is_empty / is_terminated on the collection types (inherent or from any trait) is an observer; who may vacate (C02 R2.2). Added (round 3): size_hint is the fourth observer (C17 R17.3 evaluated here). Added: try-push forwarders have no side effects of their own (R15.2), every group of an unbounded collection has capacity >= 1 (R15.5). Added (round 5): len() of an ordered collection may be the wrapping distance of its position counters (then the index discipline R4.1-R4.3 is evaluated here too); group capacities evaluated per path. Added (round 6): refusal is side-effect free also when the forwarder reserves and rolls back: every refusing return path carries no effect or exactly a Wrapping step followed by its inverse (R15.2). Added (round 7): R15.5 also covers adopted groups (a bounded collection received by value and moved whole into the groups of an unbounded one needs a dominating capacity() >= 1 test).",
+    "C16": " Added (round 4): the guard rules cover every function that polls an upstream (not only poll_next); out-of-turn outputs are held only in the counted heap (C02 R2.5). The guard is decided by finite-grid entailment (a pull is admitted only when running + parked < capacity) with the exact-shape rule as fallback; C15 R15.3 (len = running + parked) is evaluated in this check. Added (round 5): a guard kept in a variable must be the same formula at every definition and be re-evaluated after every push; counter-window form of len(). Added (round 7): C02 R2.3 (incl. the bookkeeping-borrow rule) is kept as a shared link: `running` in the guard is the slot map's counter.",
+    "C18": " Added (round 4): every function of the unbounded types that appends a freshly built group obeys the growth discipline (not only push); a group leaves the vector only where its own poll reported Ready(None) (shared with C11). Added (round 5): the last group may be retained by not removing it (edge conditions over (number of groups, cursor) decided on a grid); fresh-group capacities evaluated per path. Added (round 6): an allocating site may sit behind a join (`if let Some(next) = place_or_grow(..)`): every constant-feasible arrival has crossed 'no group yet' or 'last group refused'. Added (round 7): R18.5 who may shrink the groups vector -- the vector operations of every loop-free path of a non-poll_next function are replayed on 2..4 group identities; reported where the last (largest) group is gone.",
     "C17": " Added (round 3): the index discipline of the ordered collections (C04 R4.1) is evaluated here -- a lost item falsifies the lower bound. Handles match, Option::and_then and map/unwrap_or forms of the bound computation; C15 R15.3 is evaluated in this check. Added (round 5): a merge may override size_hint only with a per-path true bound (None; Some(0) where no source is held; checked sum over every source's hint); helper methods of the collections (buffered_size_hint) are read through. Added (round 6): C04 R4.3 (re-base keeps the live window contiguous) is evaluated here next to R4.1.",
 }
 
